@@ -65,5 +65,5 @@ void h_PIL(void)
   VF_CANARY();
 }
 //@run name=ProcessIntersectList.ael3 entry=h_PIL defs=N=3 unwind=5 flags="--bounds-check --pointer-check" timeout=600 bounded="AEL of 3 edges, every target order and every processing order of the nodes"
-//@run name=ProcessIntersectList.ael4 entry=h_PIL defs=N=4 unwind=8 flags="--bounds-check --pointer-check" timeout=1800 tier=thorough bounded="AEL of 4 edges, every target order and every processing order of the nodes"
+//@run name=ProcessIntersectList.ael4 entry=h_PIL defs=N=4 unwind=8 flags="--bounds-check --pointer-check" solver=cadical timeout=1800 tier=thorough bounded="AEL of 4 edges, every target order and every processing order of the nodes"
 //@assume A5 (C01_processintersect): std::sort with IntersectListSort is an arbitrary permutation; IntersectEdges, CheckJoinLeft, CheckJoinRight are stubs that check the state they are called in; the node list is what C01_intersectlist proves BuildIntersectList delivers.
